@@ -24,9 +24,14 @@ rc, out = sh("git -C /repo worktree add --detach %s HEAD" % WT)
 assert rc == 0, out
 try:
     demo = os.path.join(seed, "demo.rs")
+    notes = open(os.path.join(seed, "notes.md")).read() if os.path.exists(os.path.join(seed, "notes.md")) else ""
+    in_core = "core/tests" in notes
+    DEMO_DIR = os.path.join(WT, "core", "tests") if in_core else os.path.join(WT, "tests")
+    DEMO_CMD = "cargo test -p darling_core --offline --test seed_demo 2>&1 | tail -15" if in_core else "cargo test --offline --test seed_demo 2>&1 | tail -15"
     if os.path.exists(demo):
-        shutil.copy(demo, os.path.join(WT, "tests", "seed_demo.rs"))
-        rc0, out0 = sh("cargo test --offline --test seed_demo 2>&1 | tail -15", cwd=WT)
+        os.makedirs(DEMO_DIR, exist_ok=True)
+        shutil.copy(demo, os.path.join(DEMO_DIR, "seed_demo.rs"))
+        rc0, out0 = sh(DEMO_CMD, cwd=WT)
         ok_clean = "test result: ok" in out0 and "FAILED" not in out0
         meta["ran"].append({"cmd": "demo on clean tree", "passes": ok_clean, "tail": out0[-600:]})
     else:
@@ -39,13 +44,14 @@ try:
     results = [l for l in out1.split("\n") if l.startswith("test result")]
     suite_ok = bool(results) and "error" not in out1
     # the seed_demo test binary is part of --workspace; exclude its line by checking failures of other binaries
-    rcs, outs = sh("mv tests/seed_demo.rs /tmp/seed_demo.rs.bak 2>/dev/null; cargo test --workspace --offline 2>&1 | grep -E '^test result|^error'; mv /tmp/seed_demo.rs.bak tests/seed_demo.rs 2>/dev/null", cwd=WT)
+    dpath = os.path.join(DEMO_DIR, "seed_demo.rs")
+    rcs, outs = sh("mv %s /tmp/seed_demo.rs.bak 2>/dev/null; cargo test --workspace --offline 2>&1 | grep -E '^test result|^error'; mv /tmp/seed_demo.rs.bak %s 2>/dev/null" % (dpath, dpath), cwd=WT)
     passed = sum(int(l.split()[3]) for l in outs.split("\n") if l.startswith("test result"))
     failed = sum(int(l.split()[5]) for l in outs.split("\n") if l.startswith("test result"))
     meta["ran"].append({"cmd": "cargo test --workspace --offline (with patch, without demo)", "passed": passed, "failed": failed,
                         "compile_error": any(l.startswith("error") for l in outs.split("\n"))})
     if os.path.exists(demo):
-        rc2, out2 = sh("cargo test --offline --test seed_demo 2>&1 | tail -15", cwd=WT)
+        rc2, out2 = sh(DEMO_CMD, cwd=WT)
         demo_fails = "FAILED" in out2 or "panicked" in out2 or "error" in out2
         meta["ran"].append({"cmd": "demo with patch", "fails": demo_fails, "tail": out2[-600:]})
     else:
